@@ -7,6 +7,7 @@ from sa.common import chain_root, expand_name, resolved_calls, returns_of
 from sa.defuse import DefUse, loc_name
 from sa.model import AnalysisError, AnchorMissing, const_value, src, walk_function
 from sa.struct import call_name, find, kwarg, norm, receiver, string_value
+from rules import np2
 
 EXPLANATION = (
     "Decides structural necessary conditions of C04 in NP2Converter: (D1) every unlink of the original recording "
@@ -385,8 +386,7 @@ def d4_skip_paths(ctx):
     for q in (CLS + "._prepare_files_NP24", CLS + "._prepare_files_NP21"):
         fi = repo.fn(q)
         cfg = CFG(fi.node)
-        creators = [c for c in find(fi.node, ast.Call, nested=False) if call_name(c) == "mkdir"
-                    or (call_name(c) == "open" and len(c.args) >= 2 and isinstance(c.args[1], ast.Constant) and "w" in str(c.args[1].value))]
+        creators = [c for kind, _, c in np2.file_effects(fi) if kind in ("mkdir", "truncate", "create-keep", "append") and call_name(c) != "unlink"]
         if not creators:
             raise AnchorMissing(f"{q}: no file creation found")
         for c in creators:
@@ -433,9 +433,15 @@ def d5_marker_key(ctx, rule_id="D5"):
                   f"marker key {s!r} (at NP2.4) differs from the literal(s) {lits} read by spikeglx._split_geometry_into_shanks", key="marker:" + fi.qualname)
 
 
+def d6_fresh_start(ctx):
+    ctx.rule("D6", "a forced re-run starts every shank file empty (handle opened truncating / prepare step empties the file the writer appends to)")
+    np2.fresh_start_rule(ctx, "D6")
+
+
 def run(ctx):
     ctx.run(d1_deletion_guarded)
     ctx.run(d2_typestate)
     ctx.run(d3_unlink_tolerant)
     ctx.run(d4_skip_paths)
     ctx.run(d5_marker_key)
+    ctx.run(d6_fresh_start)
